@@ -176,5 +176,13 @@ pub fn webanno(ctx: &Ctx, a: &Value) -> Value {
             body.push(json!({"set": s, "key": k, "val": val}));
         }
     }
+    // data of the Web Annotation vocabulary with these keys is exported as a member of the annotation itself
+    if let Some(wa) = store.dataset(WA_SET) {
+        for name in ["created", "creator", "motivation"] {
+            if let (Some(v), Some(key)) = (parsed.get(name), wa.key(name)) {
+                body.push(json!({"set": wa.handle().as_usize() + 1, "key": key.handle().as_usize() + 1, "val": val_from_json(v, style)}));
+            }
+        }
+    }
     json!({"ok": true, "wf": true, "targets": targets, "others": others, "extra": extra, "body": body})
 }
